@@ -402,3 +402,71 @@ def overflow_queries(rep, rng, tier, key="predict_position:overflow"):
                                   dict(model=kind, metric=metric, X=X.tolist(), Y=Y.tolist(), batch=Q.tolist(), row=j), key=key)
     rep.corr["queries_with_overflowing_distances"] = dict(cases=runs)
     return nviol
+
+
+def caller_matrix(rep, rng, tier, key="decorator:inplace"):
+    """The pre-computed matrix a caller hands to a model (through the public attribute) is caller data too: byte comparison
+    around fit / predict for the three kinds that take one, on matrices that are not exactly symmetric (directed divergences,
+    one-ulp asymmetries, +0.0 / -0.0), every other run on a read-only matrix."""
+    from opfython.models.supervised import SupervisedOPF
+    from opfython.models.semi_supervised import SemiSupervisedOPF
+    from opfython.models.unsupervised import UnsupervisedOPF
+    import opfython.math.distance as dmod
+    nviol, runs = 0, 0
+    for rd in range(9 if tier == "quick" else 300):
+        N = rng.randint(8, 13)
+        P = np.array([[rng.uniform(0.05, 1.0) for _ in range(3)] for _ in range(N)])
+        style = ("directed", "ulp", "zeros")[rd % 3]
+        if style == "directed":
+            P = P / P.sum(axis=1, keepdims=True)
+            fn = dmod.DISTANCES[rng.choice(["kullback_leibler", "neyman", "pearson", "k_divergence"])]
+            M = np.array([[float(fn(P[a].copy(), P[b].copy())) for b in range(N)] for a in range(N)])
+        else:
+            M = np.sqrt(((P[:, None, :] - P[None, :, :]) ** 2).sum(-1))
+            if style == "ulp":
+                for _ in range(N):
+                    a, b = rng.sample(range(N), 2)
+                    M[a, b] = np.nextafter(M[a, b], 2.0)
+            else:
+                M[np.diag_indices(N)] = [(-0.0 if rng.random() < 0.5 else 0.0) for _ in range(N)]
+                a, b = rng.sample(range(N), 2)
+                M[a, b] = 0.0; M[b, a] = -0.0
+        if np.isnan(M).any():
+            continue
+        kind = ("sup", "semi", "unsup")[(rd // 3) % 3]
+        before = M.tobytes()
+        ro = rd % 2 == 1
+        if ro:
+            M.setflags(write=False)
+        ntr = N - 3
+        Y = np.array([1 + (j % 2) for j in range(ntr)])
+        Z = np.zeros((N, 1))
+        I = np.arange(N)
+        try:
+            if kind == "sup":
+                o = SupervisedOPF(); o.pre_computed_distance = True; o.pre_distances = M
+                o.fit(Z[:ntr], Y, I[:ntr]); o.predict(Z[:3], I[ntr:])
+            elif kind == "semi":
+                o = SemiSupervisedOPF(); o.pre_computed_distance = True; o.pre_distances = M
+                o.fit(Z[:ntr - 2], Y[:ntr - 2], Z[:2], I[:ntr - 2], I[ntr - 2:ntr]); o.predict(Z[:3], I[ntr:])
+            else:
+                o = UnsupervisedOPF(min_k=1, max_k=3); o.pre_computed_distance = True; o.pre_distances = M
+                o.fit(Z[:ntr], Y, I[:ntr]); o.predict(Z[:3], I[ntr:])
+            err = None
+        except ValueError as ex:
+            err = ex if "read-only" in str(ex) else None
+            if err is None:
+                continue
+        except Exception:   # noqa
+            continue
+        runs += 1
+        rep.count_case(("caller-matrix", kind, before), True)
+        if err is not None or M.tobytes() != before:
+            nviol += 1
+            if nviol <= 2:
+                ch = [] if err is not None else [(int(a), int(b)) for a, b in zip(*np.nonzero(np.frombuffer(before, dtype=float).reshape(N, N).view(np.int64) != M.view(np.int64)))][:6]
+                rep.violation("%s fit/predict on a caller-supplied pre-computed matrix (%s asymmetries%s) %s" %
+                              (kind, style, ", read-only" if ro else "", ("writes into it: %s" % err) if err is not None else "changed its entries at %r" % ch),
+                              dict(model=kind, style=style, read_only=ro, matrix=np.frombuffer(before, dtype=float).reshape(N, N).tolist()), key=key)
+    rep.corr["caller_supplied_matrix"] = dict(cases=runs)
+    return nviol
